@@ -2820,22 +2820,28 @@ func (a *Agent) cleanupRelaysForPeer(peerID identity.AgentID) {
 	// The other side of each relayed stream is still connected and would keep
 	// its relay entries, connection records and stream state for ever: tell
 	// it that the stream is gone.
-	reset := &protocol.StreamReset{ErrorCode: protocol.ErrHostUnreachable}
-	payload := reset.Encode()
-	for _, e := range removed {
-		dstPeer, dstID := e.UpstreamPeer, e.UpstreamID
-		if e.UpstreamPeer == peerID {
-			dstPeer, dstID = e.DownstreamPeer, e.DownstreamID
+	// The notifications are written from their own goroutine: this function
+	// runs inside the peer manager's disconnect callback, which must not wait
+	// for another peer's connection to accept a write.
+	go func() {
+		defer recovery.RecoverWithLog(a.logger, "cleanupRelaysForPeer")
+		reset := &protocol.StreamReset{ErrorCode: protocol.ErrHostUnreachable}
+		payload := reset.Encode()
+		for _, e := range removed {
+			dstPeer, dstID := e.UpstreamPeer, e.UpstreamID
+			if e.UpstreamPeer == peerID {
+				dstPeer, dstID = e.DownstreamPeer, e.DownstreamID
+			}
+			if dstPeer == peerID {
+				continue
+			}
+			a.peerMgr.SendToPeer(dstPeer, &protocol.Frame{
+				Type:     protocol.FrameStreamReset,
+				StreamID: dstID,
+				Payload:  payload,
+			})
 		}
-		if dstPeer == peerID {
-			continue
-		}
-		a.peerMgr.SendToPeer(dstPeer, &protocol.Frame{
-			Type:     protocol.FrameStreamReset,
-			StreamID: dstID,
-			Payload:  payload,
-		})
-	}
+	}()
 }
 
 // Dial implements socks5.Dialer for SOCKS5 connections.
